@@ -23,6 +23,10 @@ func varValue(endpoint, name string) string {
 		return "t1"
 	case name == "name" && strings.Contains(endpoint, "/cluster/"):
 		return "verifcluster"
+	case name == "name" && strings.Contains(endpoint, "/sample/users/"):
+		return "tom"
+	case name == "field" && strings.Contains(endpoint, "/sample/users/"):
+		return "age"
 	case name == "name":
 		return plainName
 	case name == "id":
@@ -139,7 +143,7 @@ func payloadsOf(route string) []payload {
 	case "POST /admin/caches":
 		return []payload{jsonBody("", obj("serviceSize", 10, "assetSize", 1000))}
 	case "PATCH /admin/config":
-		return []payload{jsonBody("", obj("ego.compiler.extensions", "true", "ego.console.format", "text"))}
+		return []payload{jsonBody("", obj("ego.compiler.extensions", true, "ego.compiler.normalized", false))}
 	case "POST /admin/config":
 		return []payload{jsonBody("", arr("ego.compiler.extensions", "ego.server.token.key"))}
 	case "POST /admin/loggers/":
@@ -156,11 +160,14 @@ func payloadsOf(route string) []payload {
 	case "POST /dsns/":
 		return []payload{jsonBody("", obj("name", "vnewdsn", "provider", "sqlite", "database", "/nonexistent/c40.db", "host", "", "port", 0, "user", "u", "password", "p", "schema", "", "secured", false, "restricted", true, "rowid", true))}
 	case "PATCH /dsns/{{dsn}}/":
-		return []payload{jsonBody("", obj("name", "vlite", "provider", "sqlite", "database", "/nonexistent/c40.db", "user", "u", "password", "p", "restricted", true))}
+		return []payload{jsonBody("", obj("name", "vlite", "provider", "sqlite", "database", "/nonexistent/c40.db", "restricted", true, "rowid", true)),
+			{name: "postgres", ctype: "application/json", kind: bodyJSON, json: obj("name", "vpg", "provider", "postgres", "database", "vdb2", "host", "127.0.0.1", "port", 82, "user", "u2", "password", "p2", "schema", "s", "secured", true),
+				lean: true, tweak: func(b *build, id identity) { b.vars["dsn"] = "vpg" }}}
 	case "POST /dsns/@permissions":
 		return []payload{
+			// (the route's payload validation admits read|write|admin with an optional sign, the handler then
+			// wants ego.dsn.read|write|admin: no action name satisfies both, the handler's own 400 is as far as a request gets)
 			jsonBody("", obj("dsn", "vsecret", "user", plainName, "actions", arr("+read", "-write"))),
-			jsonBody("list", obj("items", arr(obj("dsn", "vsecret", "user", plainName, "actions", arr("read")), obj("dsn", "vlite", "user", powerName, "actions", arr("admin"))))),
 		}
 	case "POST /dsns/{{dsn}}/tables/@generate":
 		return []payload{jsonBody("", "list the names in t1"), jsonBody("parts", arr("list the", "names in t1"))}
@@ -182,17 +189,19 @@ func payloadsOf(route string) []payload {
 			obj("operation", "drop", "table", "t2"),
 		))}
 	case "PUT /dsns/{{dsn}}/tables/{{table}}":
-		return []payload{jsonBody("", arr(obj("name", "id", "type", "int", "size", 0, "nullable", obj("specified", true, "value", false), "unique", obj("specified", true, "value", true)), obj("name", "label", "type", "string", "size", 20)))}
+		return []payload{jsonBody("", arr(obj("name", "id", "type", "int", "size", 0, "nullable", obj("specified", true, "value", false), "unique", obj("specified", true, "value", true)), obj("name", "label", "type", "string", "size", 20))).with(func(b *build, id identity) {
+			b.vars["table"] = "tnew"
+		})}
 	case "PUT /dsns/{{dsn}}/tables/{{table}}/permissions", "DELETE /dsns/{{dsn}}/tables/{{table}}/permissions":
-		return []payload{jsonBody("", arr("read", "+update", "-delete"))}
+		return []payload{jsonBody("", arr("ego.table.read", "+ego.table.update", "-ego.table.delete"))}
 	case "PUT /dsns/{{dsn}}/tables/{{table}}/rows":
 		return []payload{
 			jsonBody("", obj("id", 5, "name", "five", "score", 5.5)),
 			jsonBody("array", arr(obj("id", 5, "name", "five", "score", 5.5), obj("id", 6, "name", "six", "score", nil))),
-			jsonBody("rowset", obj("rows", arr(obj("id", 5, "name", "five")), "count", 1)),
+			jsonBody("rowset", obj("rows", arr(obj("id", 5, "name", "five", "score", 5.5)), "count", 1)),
 			{name: "abstract", ctype: "application/json", kind: bodyJSON, query: []kv{{"abstract", "true"}},
 				json: obj("columns", arr(obj("name", "id", "type", "int"), obj("name", "name", "type", "string")), "rows", arr(arr(5, "five"), arr(6, "six")), "count", 2)},
-			{name: "upsert", ctype: "application/json", kind: bodyJSON, query: []kv{{"upsert", "id"}}, json: obj("id", 1, "name", "uno")},
+			{name: "upsert", ctype: "application/json", kind: bodyJSON, query: []kv{{"upsert", "id"}}, json: obj("id", 1, "name", "uno", "score", 1.25)},
 		}
 	case "PATCH /dsns/{{dsn}}/tables/{{table}}/rows":
 		return []payload{
@@ -205,7 +214,10 @@ func payloadsOf(route string) []payload {
 	case "GET /dsns/{{dsn}}/tables/{{table}}/rows":
 		return []payload{{name: "", kind: bodyNone}, {name: "abstract", kind: bodyNone, query: []kv{{"abstract", "true"}, {"columns", "id,name"}, {"sort", "id"}, {"filter", "GT(id,0)"}, {"start", "1"}, {"limit", "2"}}}}
 	case "GET /dsns/{{dsn}}/commit", "GET /dsns/{{dsn}}/rollback":
-		return []payload{{name: "", kind: bodyNone, query: []kv{{"id", someUUID}}}}
+		return []payload{{name: "", kind: bodyNone, query: []kv{{"transaction", someUUID}}}}
+	case "GET /services/admin/authenticate":
+		// answers for token credentials only
+		return []payload{{name: "", kind: bodyNone, tweak: func(b *build, id identity) { b.setHeader("Authorization", id.Bearer) }}}
 	case "POST /services/admin/logon":
 		return []payload{
 			{name: "basic", kind: bodyNone},
